@@ -65,6 +65,18 @@ Theorem C12_body_at_most_once_refuted :
 Proof. exact body_at_most_once_refuted. Qed.
 Print Assumptions C12_body_at_most_once_refuted.
 
+(* known finding D12r: the events of the theorems above are atomic; a body that reaches - through a
+   function value it was given, static cycles are rejected by the compiler - an import of the module
+   being loaded starts again, returns twice, and the two imports get different objects.  The witness
+   is replayed on the implementation by the check on every run. *)
+Theorem C12_reentrant_body_refuted :
+  exists e s v,
+    exec_nested 10 (init_tstate 1) e = (s, v) /\ ~ NoDup (t_done s) /\
+    nth_error (t_cache s) 0 = Some (Some 3%Z) /\
+    fst (exec_nested 10 (init_tstate 1) (IEv 0 false [])) <> s.
+Proof. exact reentrant_body_refuted. Qed.
+Print Assumptions C12_reentrant_body_refuted.
+
 Example C12_diamond :
   (* main imports m1 and m2, both import m3; m3 is requested three times *)
   let '(ms, its) := import_all empty_store [("m1"%string, 1, 0); ("m3"%string, 1, 1); ("m2"%string, 1, 2); ("m3"%string, 1, 9); ("m3"%string, 1, 9)] in
